@@ -494,7 +494,7 @@ def lasso_optimal_causation_entropy(
             X, Y.flatten()
         )
     else:
-        lasso = Lasso(max_iter=max_lambda).fit(X, Y.flatten())
+        lasso = Lasso(max_iter=max_lambda, random_state=0).fit(X, Y.flatten())
     S = np.where(lasso.coef_ != 0)[0].tolist()
     return S
 
